@@ -30,7 +30,8 @@ type Op struct {
 
 var collidingDSeq = []uint64{1, 12, 256, 257, 65536, 65537, 1 << 32, 1<<32 + 1, 2, 120, 3}
 
-var attrUniverse = []types.Attribute{{Key: "region", Value: "us"}, {Key: "region", Value: "eu"}, {Key: "tier", Value: "gold"}, {Key: "gpu", Value: "yes"}}
+var attrUniverse = []types.Attribute{{Key: "region", Value: "us"}, {Key: "region", Value: "eu"}, {Key: "tier", Value: "gold"}, {Key: "gpu", Value: "yes"},
+	{Key: "Region", Value: "us"}, {Key: "TIER", Value: "gold"}}
 
 type gen struct {
 	w    *World
@@ -64,7 +65,11 @@ func (g *gen) attrs(label string) types.Attributes {
 	seen := map[string]bool{}
 	n := r.Choose(4, label+".n")
 	for i := 0; i < n; i++ {
-		a := attrUniverse[r.Choose(len(attrUniverse), label+".a")]
+		nU := 4
+		if g.bias["attrs.case-variants"] > 0 {
+			nU = len(attrUniverse)
+		}
+		a := attrUniverse[r.Choose(nU, label+".a")]
 		if seen[a.Key] {
 			continue
 		}
@@ -78,7 +83,11 @@ func (g *gen) attrs(label string) types.Attributes {
 func (g *gen) richAttrs(label string) types.Attributes {
 	r := g.w.R
 	var out types.Attributes
-	for _, k := range []string{"region", "tier", "gpu"} {
+	keys := []string{"region", "tier", "gpu"}
+	if g.bias["attrs.case-variants"] > 0 {
+		keys = append(keys, "Region", "TIER")
+	}
+	for _, k := range keys {
 		if !r.Bool(70, label+".has") {
 			continue
 		}
@@ -156,6 +165,10 @@ func (g *gen) dseqFor(owner string, wantExisting bool) uint64 {
 		if len(mine) > 0 {
 			return mine[r.Choose(len(mine), "dseq.existing")]
 		}
+	}
+	if g.bias["dseq.prefix-family"] > 0 && r.Bool(g.bias["dseq.prefix-family"], "dseq.family") {
+		fam := []uint64{1, 12, 120, 1200, 256, 65536}
+		return fam[r.Choose(len(fam), "dseq.family.v")]
 	}
 	return collidingDSeq[r.Choose(len(collidingDSeq), "dseq")]
 }
